@@ -144,6 +144,17 @@ check("C14", "Lifecycle.tla models the handles and the daemon thread with one st
       "explicit TLA+ life-cycle spec model-checked by TLC (safety + liveness); TLC-enumerated schedules replayed into the real daemon and validated by a trace spec "
       "that reuses the spec's step functions; real-thread histories validated by a TLC monitor", "DESIGN.md section 7 C14")
 
+check("C15", "ApiGuard.tla states the argument space of the public functions by shape (label lengths around every limit, fillings with every awkward kind of "
+      "character at every position class, right / missing / doubled / wrong suffixes); TLC enumerates it and every case is replayed on a real daemon in the "
+      "simulation, followed by enough virtual time for the deferred work (probing, a conflict rename, announcing, queries, follow-ups) and a liveness probe. "
+      "A second driver sends random, mutated, truncated and well-formed-but-awkward datagrams (63-byte labels, trailing backslashes, dots and non-UTF-8 bytes "
+      "inside labels, 255-byte names, conflicts for own names at the label limit) to a daemon with an open browse, resolver and registration. The TLC monitor "
+      "TraceGuard requires of every trace: no panic in a calling thread, the daemon thread neither ends nor gets stuck, and it still answers status() with "
+      "Running and a fresh browse with SearchStarted at the end.",
+      RESP_NOTE + " The model's content here is the enumeration of the input space; the oracle is the robustness statement itself.",
+      "TLC-enumerated argument shapes replayed into the real API and daemon; trace validation of the recorded runs (and of hostile-datagram runs) by a TLC monitor",
+      "DESIGN.md section 7 C15")
+
 def hooks_commits():
     try:
         out = subprocess.run(["git", "-C", "/repo", "log", "--format=%h %s"], stdout=subprocess.PIPE, text=True).stdout
